@@ -210,7 +210,7 @@ Section PInv.
     PInv {| store := set_nth i {| lt_task := task_at (store s) i; lt_second := false;
                                   lt_deps := lt_deps (lt_at (store s) i); lt_out := Alias v |} (store s);
             stack := stk; visited := visited s; ops := ops s; initial := initial s;
-            cached := cached s; sr_calls := sr_calls s; nv_calls := nv_calls s |}.
+            cached := cached s; sr_calls := sr_calls s; nv_calls := nv_calls s; snaps := snaps s |}.
   Proof.
     intros I Es Hsec Hl.
     assert (Hin : In i (stack s)) by (rewrite Es; left; reflexivity).
@@ -258,7 +258,7 @@ Section PInv.
     lookup (task_at (store s) i) (visited s) = None ->
     PInv {| store := store s; stack := stk; visited := (task_at (store s) i, i) :: visited s; ops := ops s;
             initial := initial s; cached := cached s ++ [task_at (store s) i];
-            sr_calls := sr_calls s ++ [task_at (store s) i]; nv_calls := nv_calls s |}.
+            sr_calls := sr_calls s ++ [task_at (store s) i]; nv_calls := nv_calls s; snaps := snaps s |}.
   Proof.
     intros I Es Hsec Hl.
     assert (Hin : In i (stack s)) by (rewrite Es; left; reflexivity).
@@ -310,13 +310,13 @@ Section PInv.
     lookup (task_at (store s) i) (visited s) = None ->
     push_deps (rev (t_deps (info (task_at (store s) i)))) ((task_at (store s) i, i) :: visited s) (store s) (i :: stk) []
       = (st1, stk1, deps1) ->
-    forall scs nvs,
+    forall scs nvs sns,
     PInv {| store := set_nth i {| lt_task := task_at (store s) i; lt_second := true; lt_deps := deps1;
                                   lt_out := lt_out (lt_at (store s) i) |} st1;
             stack := stk1; visited := (task_at (store s) i, i) :: visited s; ops := ops s; initial := initial s;
-            cached := cached s; sr_calls := scs; nv_calls := nvs |}.
+            cached := cached s; sr_calls := scs; nv_calls := nvs; snaps := sns |}.
   Proof.
-    intros I Es Hsec Hl Hpd scs nvs.
+    intros I Es Hsec Hl Hpd scs nvs sns.
     assert (Hin : In i (stack s)) by (rewrite Es; left; reflexivity).
     pose proof (k_ok _ I i Hin) as Hi.
     destruct (pend _ I i Hin) as [Hout Hp].
@@ -466,14 +466,14 @@ Section PInv.
     let oi := {| op_task := t; op_exe_deps := edeps;
                  op_par := match k with KCommand | KExperiment => t_par (info t) | _ => false end;
                  op_sync := is_sync k |} in
-    forall nvs,
+    forall nvs sns,
     PInv {| store := set_nth i {| lt_task := t; lt_second := true; lt_deps := lt_deps lt;
                                   lt_out := match lt_out lt with Own l => Own (l ++ [o]) | a => a end |} (store s);
             stack := stk; visited := visited s; ops := ops s ++ [oi];
             initial := match edeps with [] => initial s ++ [o] | _ => initial s end;
-            cached := cached s; sr_calls := sr_calls s; nv_calls := nvs |}.
+            cached := cached s; sr_calls := sr_calls s; nv_calls := nvs; snaps := sns |}.
   Proof.
-    intros I Es Hsec lt t o edeps k oi nvs.
+    intros I Es Hsec lt t o edeps k oi nvs sns.
     assert (Hin : In i (stack s)) by (rewrite Es; left; reflexivity).
     pose proof (k_ok _ I i Hin) as Hi.
     destruct (pend _ I i Hin) as [Hout _]. fold lt in Hout. rewrite Hout. cbn [app].
